@@ -469,7 +469,8 @@ ProcConnect(s, e, m, inWd) ==
          LET s2 == Out(s1, e, MAck(m.id, s.cfg[e].rwnd, m.g)) IN
          IF ~s.mux[e] THEN
            (* accept receiver is gone: Err(SendStreamToClient) *)
-           LET s3 == DropHandle(s2, e, h) IN IF inWd THEN s3 ELSE BeginWd(s3, e, FALSE, "sendstream")
+           (* ... because the Multiplexor was dropped: a local drop noticed by the receive side *)
+           LET s3 == DropHandle(s2, e, h) IN IF inWd THEN s3 ELSE BeginWd(s3, e, TRUE, "ok")
          ELSE IF Len(s.acceptq[e]) < s.cfg[e].acceptCap
            THEN Wake([s2 EXCEPT !.acceptq[e] = Append(@, h)], {[k |-> "acc", e |-> e, x |-> 0]})
          ELSE [s2 EXCEPT !.rxblk[e] = [k |-> "accept", h |-> h, m |-> NoMsg]]
@@ -500,7 +501,9 @@ ProcAck(s0, e, m, inWd) ==
          IN IF live
             THEN Wake([s1 EXCEPT !.calls[e][sl.c].resp = "some", !.calls[e][sl.c].h = h], {WakeC(e, sl.c)})
             ELSE (* requester is gone: Err(SendStreamToClient), stream dropped *)
-                 LET s2 == DropHandle(s1, e, h) IN IF inWd THEN s2 ELSE BeginWd(s2, e, FALSE, "sendstream")
+                 (* with the Multiplexor dropped this is a local drop (flush); a merely cancelled request is an error *)
+                 LET s2 == DropHandle(s1, e, h) IN
+                 IF inWd THEN s2 ELSE IF ~s.mux[e] THEN BeginWd(s2, e, TRUE, "ok") ELSE BeginWd(s2, e, FALSE, "sendstream")
     [] OTHER -> Out(s, e, MReset(m.id, m.g))
 
 ProcFinish(s0, e, m) ==
@@ -552,7 +555,7 @@ ProcBind(s, e, m, inWd) ==
        ELSE [s EXCEPT !.rxblk[e] = [k |-> "bind", h |-> 0, m |-> m]]
 
 ProcDgram(s, e, m, inWd) ==
-  IF ~s.mux[e] THEN (IF inWd THEN s ELSE BeginWd(s, e, FALSE, "closed"))
+  IF ~s.mux[e] THEN (IF inWd THEN s ELSE BeginWd(s, e, TRUE, "ok"))     \* local drop noticed by the receive side
   ELSE IF Len(s.dgq[e]) < s.cfg[e].dgCap
        THEN Wake([s EXCEPT !.dgq[e] = Append(@, [id |-> m.id, host |-> m.host, port |-> m.port, data |-> m.data, g |-> m.g])],
                  {[k |-> "dg", e |-> e, x |-> 0]})
@@ -584,7 +587,7 @@ Unblock(s, e) ==
   CASE b.k = "accept" ->
          IF ~s.mux[e] THEN
             (* receiver dropped while we waited: Err(SendStreamToClient) *)
-            BeginWd(DropHandle([s EXCEPT !.rxblk[e].k = "none"], e, b.h), e, FALSE, "sendstream")
+            BeginWd(DropHandle([s EXCEPT !.rxblk[e].k = "none"], e, b.h), e, TRUE, "ok")
          ELSE IF Len(s.acceptq[e]) < s.cfg[e].acceptCap
          THEN Wake([s EXCEPT !.acceptq[e] = Append(@, b.h), !.rxblk[e] = [k |-> "none", h |-> 0, m |-> NoMsg]],
                    {[k |-> "acc", e |-> e, x |-> 0]})
@@ -649,7 +652,8 @@ Finalize(s, e) ==
 
 (* poll_close on the sink *)
 CloseSink(s, e) ==
-  LET s0 == IF /\ ~s.mux[e] /\ s.task[e].drain /\ s.sink[e] = "open" /\ s.healthy
+  LET s0 == IF /\ ~s.mux[e] /\ s.sink[e] = "open" /\ s.healthy
+               /\ (s.task[e].drain \/ s.task[e].res # "ok")     \* not ended by the peer
                /\ s.snt[e] < s.flushTo[e]
             THEN Flag(s, "C08.FlushOnDrop") ELSE s
   IN IF s.sink[e] = "open"
